@@ -48,4 +48,19 @@ for i in range(1, 21):
         per[q] = sorted(used)
     out[pid] = per
     print(pid, len(per), "functions in scope")
+# G4: options forwarded under their own name, per function of each scope;  G5: attributes stored on self, per class
+fwd = {}
+index = {f.qualname: f for f in project.all_functions()}
+for pid, per in out.items():
+    t = {}
+    for q in per:
+        f = index.get(q)
+        if f is None:
+            continue
+        now, _called = check.forwarded_options(project, f)
+        if now:
+            t[q] = sorted([list(x) for x in now])
+    fwd[pid] = t
+out["#forward"] = fwd
+out["#state"] = {c.qualname: sorted(check.class_state(c)) for c in project.classes.values()}
 json.dump(out, open(os.path.join(os.path.dirname(os.path.dirname(os.path.abspath(__file__))), "menpolint", "scope.json"), "w"), indent=1, sort_keys=True)
